@@ -434,6 +434,20 @@ def sequential_part(cs, log, ctx, hyruns, managers):
             check_equal_both(back, opm, f"manager {idx} via {via}", "roundtrip")
             check_tasks_and_find(cs, back, mm, f"round-tripped manager {idx}",
                                  "roundtrip", "rt")
+            if cs.flip("read_dictionary_again", 40):
+                # the same dictionary is read a second time (two managers from
+                # one exported description)
+                try:
+                    again = hyruns.OptionManager.from_dict(d2)
+                except Exception as e:
+                    raise Violation("from_dict_raised", "second from_dict of "
+                                    f"the same dictionary raised {e!r}",
+                                    "roundtrip")
+                why = same_manager(again, mm)
+                if why:
+                    raise Violation("roundtrip_differs_from_model",
+                                    f"manager {idx}: second from_dict of the "
+                                    f"same dictionary: {why}", "roundtrip")
             log.ev("roundtrip", idx, via, len(mm.tasks))
             ctx.hit("probe.dict_roundtrip")
             if names != hyruns._DICT_KEYNAMES_DEFAULT:
